@@ -398,6 +398,18 @@ pub(crate) async fn run_command_loop(
     }
   }
 
+  // Answer the commands that were queued after the loop took its last one. The handles keep the
+  // channel (and so the queued reply senders) alive after this receiver is dropped, so a command
+  // left in the mailbox would leave its caller waiting forever. The phase is Finished here, so
+  // `process_socket_command` only replies "shutting down" (Ok for UserClose) and closes orphaned
+  // connections.
+  while let Ok(cmd) = command_receiver.try_recv() {
+    let _ = command_processor::process_socket_command(core_arc.clone(), &socket_logic_strong, cmd).await;
+  }
+  // Close the mailbox right away (not only when this function's locals are dropped, after the
+  // ActorStopping event has released `Context::term()`): later sends must fail, not queue up.
+  let _ = command_receiver.close();
+
   // Publish the final ActorStopping event for this SocketCore.
   if let Some(err) = final_error_for_actorstop {
     actor_drop_guard.set_error(err);
